@@ -406,10 +406,15 @@ func (t *parser) listItem(list []interface{}, i, nestedNameLevel int) ([]interfa
 		}
 		// Now we need to get the value after the ].
 		list2, err := t.listItem(crtList, nextI, nestedNameLevel)
-		if err != nil {
+		if err != nil && err != io.EOF {
 			return list, err
 		}
-		return setIndex(list, i, list2)
+		// io.EOF only says that the line ended with this value: it still has to be stored
+		list, err2 := setIndex(list, i, list2)
+		if err2 != nil {
+			return list, err2
+		}
+		return list, err
 	case last == '.':
 		// We have a nested object. Send to t.key
 		inner := map[string]interface{}{}
@@ -425,10 +430,15 @@ func (t *parser) listItem(list []interface{}, i, nestedNameLevel int) ([]interfa
 
 		// Recurse
 		e := t.key(inner, nestedNameLevel)
-		if e != nil {
+		if e != nil && (e != io.EOF || len(inner) == 0) {
 			return list, e
 		}
-		return setIndex(list, i, inner)
+		// io.EOF only says that the line ended with this value (e.g. "a[0].b="): it still has to be stored
+		list, err := setIndex(list, i, inner)
+		if err != nil {
+			return list, err
+		}
+		return list, e
 	default:
 		return nil, errors.Errorf("parse error: unexpected token %v", last)
 	}
